@@ -695,6 +695,25 @@ def clause_on_native(con, nargs, kind, val):
 
 
 def bounded_standin(con, raw, combo, rep, label, limit=4000, seed=0):
+    if con.native is False and getattr(con, "witnesses", None):
+        # a contract over abstract inputs: its stand-in is the list of representative concrete programs attached to it
+        n, failures = 0, []
+        for wl, fn in con.witnesses:
+            n += 1
+            try:
+                ok, observed = fn()
+            except BaseException as ex:   # noqa
+                ok, observed = False, f"raised {type(ex).__name__}: {ex}"
+            if not ok:
+                failures.append({"witness": wl, "observed": str(observed)[:400]})
+        rep.bounded.append({"function": con.name, "label": label, "cases": n, "distinct_nontrivial": n, "failures": len(failures),
+                            "bound": "the representative concrete programs attached to the contract (run when the symbolic exploration is undecided)"})
+        if failures:
+            o = rep.add(Obl(f"{con.name}[{label}]#bounded", "B", con.name, "bounded stand-in: representative programs of the obligation family"))
+            o.status, o.backend = "refuted", "cpython"
+            o.detail = "failing input: " + repr(failures[0])[:500]
+            o.replay = {"replayed": True, "confirmed": True, "inputs": failures[0], "more": failures[1:4]}
+        return None
     if con.native is False or getattr(con, "standin", True) is False:
         return None       # no native thunk, or the clauses talk about the symbolic structure of the result (not checkable on plain values)
     return _bounded_standin(con, raw, combo, rep, label, limit, seed)
